@@ -49,7 +49,10 @@ def cloud_strategy(draw, tier):
             "reused": draw(st.integers(0, 3)) == 0, "legacy_kw": draw(st.integers(0, 3)) == 0,
             # the same object was just used on the same cloud with another soma; the column names handed over per call
             # (deprecated spelling of the constructor option)
-            "other_soma_first": draw(st.integers(0, 3)) == 0, "names_per_call": draw(st.integers(0, 4)) == 0}
+            "other_soma_first": draw(st.integers(0, 3)) == 0, "names_per_call": draw(st.integers(0, 4)) == 0,
+            # how the caller writes the soma position down: a float array, or whole numbers as a list / tuple of Python
+            # ints or an integer array (next to a floating-point cloud)
+            "soma_form": draw(st.sampled_from(["float-array", "float-array", "float-list", "int-list", "int-tuple", "int64-array", "int32-array"]))}
 
 
 def _points(case):
@@ -149,8 +152,21 @@ def run_cloud(case, ctx):
     soma = case["soma"]
     dtype = case.get("dtype", "float64")
     is_int = dtype.startswith("int")
+    soma_arg = None
     if soma is not None:
         soma = np.array([round(v * 50) for v in soma], dtype=dtype) if is_int else np.array(soma, dtype=np.float64)
+        soma_arg = soma
+        form = case.get("soma_form", "float-array")
+        if not is_int and form != "float-array":
+            if form == "float-list":
+                soma_arg = [float(v) for v in soma]
+            else:
+                whole = [int(round(float(v))) for v in soma]  # a whole-number position (distinct from the jittered cloud points)
+                soma = np.array(whole, dtype=np.float64)
+                soma_arg = whole if form == "int-list" else tuple(whole) if form == "int-tuple" else \
+                    np.array(whole, dtype=np.int64 if form == "int64-array" else np.int32)
+                ctx.cls("soma-given-as-whole-numbers-beside-a-float-cloud")
+            ctx.cls("soma-form:" + form)
     # the library measures distances in the array's own precision: ties closer than that are not decidable
     tie = 1e-5 if dtype == "float32" else 1e-9
     full = (np.concatenate([[soma], P]) if soma is not None else P).astype(np.float64)
@@ -179,7 +195,7 @@ def run_cloud(case, ctx):
         ctx.lib(f"{which}/build", tr, P.copy(), np.asarray(soma, dtype=np.float64) + np.array([7.5, -3.25, 11.0]))
         ctx.cls("same-object-same-cloud-another-soma-before")
     snapshot = P.copy()
-    args = (P,) if soma is None else (P, soma)
+    args = (P,) if soma is None else (P, soma_arg)
     kwargs = {}
     if case.get("names_per_call"):
         from swcgeom.core.swc_utils import SWCNames
@@ -268,11 +284,100 @@ def run_cloud(case, ctx):
     ctx.nontrivial(n >= 8 and (bf_visible or limit_bites or (bf == 0 and k == -1)))
 
 
+# ----------------------------------------------------------------------------- limits of hundreds of children
+def ref_greedy_np(P, bf, k, excl, tie):
+    """The same greedy as ref_greedy, one matrix operation per step (for clouds of hundreds of points)."""
+    n = len(P)
+    D = np.linalg.norm(P[:, None] - P[None], axis=2)
+    pid = np.full(n, -1)
+    acc = np.zeros(n)
+    conn = np.zeros(n, dtype=bool)
+    conn[0] = True
+    sat = np.zeros(n, dtype=bool)
+    cnt = np.zeros(n, dtype=np.int64)
+    amb = False
+    for _ in range(n - 1):
+        rows = conn & ~sat
+        if not rows.any():
+            return pid.tolist(), amb, "no unsaturated connected point left"
+        C = D + bf * acc[:, None]
+        C[~rows, :] = np.inf
+        C[:, conn] = np.inf
+        flat = C.ravel()
+        a = int(np.argmin(flat))
+        c = float(flat[a])
+        two = np.partition(flat, 1)[:2]
+        if np.isfinite(two[1]) and abs(float(two[1]) - c) < tie * (1 + c):
+            amb = True
+        i, j = divmod(a, n)
+        pid[j] = i
+        acc[j] = acc[i] + D[i, j]
+        conn[j] = True
+        cnt[i] += 1
+        if k != -1 and cnt[i] >= k and (not excl or i != 0):
+            sat[i] = True
+    return pid.tolist(), amb, None
+
+
+@st.composite
+def wide_strategy(draw, tier):
+    return {"n": draw(st.integers(300, 460)), "seed": draw(st.integers(0, 2 ** 31 - 1)), "clustered": draw(st.booleans()),
+            "k": draw(st.sampled_from([256, 256, 300, 255, 257, 128])), "bf": draw(st.sampled_from([1.0, 1.0, 0.97])),
+            "exclude_soma": draw(st.sampled_from([False, False, True])), "sort": draw(st.booleans()),
+            "soma": draw(st.sampled_from([None, [0.3, -0.7, 1.1]]))}
+
+
+def run_wide(case, ctx):
+    """Balancing factor (near) 1: every point prefers the root, so a limit of some hundreds of children is what shapes the
+    tree - the limit has to hold and the greedy has to move on to the next best connected point."""
+    from swcgeom.transforms import PointsToCuntzMST
+
+    P = _points(dict(case, dtype="float64"))
+    soma = None if case["soma"] is None else np.array(case["soma"], dtype=np.float64)
+    full = np.concatenate([[soma], P]) if soma is not None else P
+    n = len(full)
+    k, excl, bf = case["k"], case["exclude_soma"], case["bf"]
+    tr = PointsToCuntzMST(bf=bf, furcations=k, exclude_soma=excl, sort=case["sort"])
+    out = ctx.lib("cuntz/build", lambda: tr(P.copy()) if soma is None else tr(P.copy(), soma))
+    ctx.cls(f"limit:{k}", "exclude-soma" if excl else "include-soma")
+    ids, pids = [int(v) for v in out.id()], [int(v) for v in out.pid()]
+    ctx.check(len(ids) == n, "wide/every-point-exactly-once", f"{len(ids)} nodes for {n} points")
+    reason = models.wellformed(ids, pids, require_sorted=case["sort"])
+    ctx.check(reason is None, "wide/single-well-formed-tree", reason)
+    got_xyz = np.stack([out.x(), out.y(), out.z()], axis=1)
+    want32 = full.astype(np.float32)
+    pos_to_idx = {tuple(p): i for i, p in enumerate(want32.tolist())}
+    if len(pos_to_idx) != n:
+        ctx.ambiguous("points-coincide-in-float32")
+        return
+    ctx.check(sorted(map(tuple, got_xyz.tolist())) == sorted(pos_to_idx), "wide/every-point-exactly-once", "positions differ from the input")
+    idx = [pos_to_idx[tuple(p)] for p in got_xyz.tolist()]
+    par = [-1] * n
+    for node, p in enumerate(pids):
+        par[idx[node]] = -1 if p == -1 else idx[p]
+    deg = np.bincount([p for p in par if p != -1], minlength=n)
+    worst = int(max((deg[i] for i in range(n) if not (excl and i == 0)), default=0))
+    binds = n - 1 > k and not excl
+    ctx.cls("limit-binds" if binds else "limit-idle")
+    ctx.nontrivial(binds)
+    ctx.check(worst <= k, "wide/branching-limit", lambda: f"a node has {worst} children with limit {k} (exclude_soma={excl}, {n} points)")
+    want_par, amb, err = ref_greedy_np(full, bf, k, excl, 1e-9)
+    if err or amb:
+        ctx.ambiguous("near-tie-or-stuck-reference")
+        return
+    bad = [i for i in range(n) if par[i] != want_par[i]]
+    ctx.check(not bad, "wide/each-point-attached-to-the-cost-minimising-connected-point",
+              lambda: f"bf={bf} k={k} exclude_soma={excl} n={n}: {len(bad)} points differ, first {bad[0]}: parent {par[bad[0]]} vs {want_par[bad[0]]}")
+
+
 SUBCHECKS = [
+    Sub("wide", wide_strategy, run_wide, quick=16, thorough=160, shards_quick=8, shards_thorough=16,
+        required={"limit-binds": 4, "limit:256": 2}),
     Sub("cloud", cloud_strategy, run_cloud, quick=6000, thorough=40000, shards_quick=8,
         required={"which:mst": 200, "which:cuntz": 400, "limit:-1": 200, "limit:1": 100, "limit:2": 200, "limit:3": 100,
                   "soma-given": 300, "first-point-is-root": 200, "bf-visible": 150, "limit-bites": 100, "plain-mst": 40,
                   "bf-clipped": 50, "sort": 300, "nosort": 300, "dtype:float32": 200, "dtype:int32": 200, "dtype:int64": 200, "far-from-origin": 300,
                   "transform-object-reused": 300, "limit-through-deprecated-keyword": 60,
-                  "same-object-same-cloud-another-soma-before": 150, "column-names-given-per-call": 300}),
+                  "same-object-same-cloud-another-soma-before": 150, "column-names-given-per-call": 300,
+                  "soma-given-as-whole-numbers-beside-a-float-cloud": 300}),
 ]
